@@ -49,7 +49,7 @@ var c13Families = []family{
 // CheckC13 checks one input against the token table, the literal rule and type
 // exclusivity. Kind selects nothing: every assertion is made on every input.
 func CheckC13(c *core.Case) error {
-	_, err := c13Check([]byte(c.In), true)
+	_, err := c13Check(inputOf(c), true)
 	return err
 }
 
